@@ -10,7 +10,7 @@ from pgverif.monitors import refmodel as R
 
 TIERS = {
     'quick': dict(shards=8, cases=125, steps=40),
-    'thorough': dict(shards=16, cases=3000, steps=60),
+    'thorough': dict(shards=16, cases=2000, steps=60),
 }
 RULE = ('case = one value-spec-less pg.List or pg.Dict (0-6 initial members, str '
         'and int keys incl. negative/zero ints and digit-only strings, nested '
